@@ -68,6 +68,7 @@ type VC struct {
 	unsupported []string
 	inlined  map[string]bool
 	usedExtern map[string]bool
+	useAxiom   map[string]bool
 	usedTrusted map[string]bool
 	usedOther map[string]bool
 	usedAxioms map[string]bool
